@@ -154,22 +154,22 @@ func Fold[A any](ctx context.Context, in <-chan A, m monoid.Monoid[A]) <-chan A 
 	done := make(chan A, 1)
 
 	go func() {
-		acc := m.Empty()
+		defer close(done)
 
-		defer func() {
-			done <- acc
-			close(done)
-		}()
+		acc := m.Empty()
 
 		var x A
 		for x = range in {
 			acc = m.Combine(acc, x)
 			select {
 			case <-ctx.Done():
+				// the fold of a part of the input is not the result: nothing is delivered
 				return
 			default:
 			}
 		}
+
+		done <- acc
 	}()
 
 	return done
